@@ -4,7 +4,9 @@
 (* one action per critical section of the code: a stage of `rehash` is Begin (split the groups by the    *)
 (* pre-filter into groups to hash and groups to pass through, cut the former into runs of same-identity  *)
 (* paths), one Task step per run in ANY order (the pool tasks: hash the first path of the run, send every  *)
-(* path of the run with that hash; a failed read sends nothing), and End (regroup everything received by  *)
+(* path of the run with that hash; if reading through a path fails the next path of the run is tried and   *)
+(* only the paths that failed are left out - before fix 5162a8b the whole run vanished), and   *)
+(* End (regroup everything received by                                                                     *)
 (* (length, hash), append the passed groups, apply the post-filter).                                      *)
 (*                                                                                                        *)
 (* The input is the record `inp` chosen by Init and never changed:                                        *)
@@ -19,7 +21,8 @@
 (*              exactly such merged candidate groups after the suffix stage; the contents stage splits    *)
 (*              them again, so only --skip-content-hash is affected (see SoundSkipIdeal).                  *)
 (*   inp.cfg    [kind, rf, isolate, matchLinks, skipContent, P, T]                                        *)
-(*   inp.bad    set of identities whose reads fail (C15)                                                  *)
+(*   inp.bad    set of paths through which the file cannot be read (C15); `failed` collects the paths     *)
+(*              whose read was really attempted and failed                                                *)
 (* MC_Grouping derives pk/sk/ck from explicit byte strings, so that the window arithmetic itself (which   *)
 (* bytes a stage looks at, which stage may be skipped for which length) is checked against byte           *)
 (* equality; Trace_Grouping takes them from the driver's own comparison of the real files and checks      *)
@@ -32,8 +35,9 @@ VARIABLES inp,     \* the input (constant along a behaviour)
           groups,  \* set of [len, hash, files]: the candidate groups between stages
           todo,    \* runs still to hash: set of [len, old, ino, files]
           got,     \* received over the channel: set of [f, len, hash]
-          pass     \* groups passed through unhashed
-vars == <<inp, stage, phase, groups, todo, got, pass>>
+          pass,    \* groups passed through unhashed
+          failed   \* paths whose read was attempted and failed
+vars == <<inp, stage, phase, groups, todo, got, pass, failed>>
 
 N == Len(inp.files)
 Paths == 1..N
@@ -66,40 +70,43 @@ NewHash(s, f, old) == CASE s = "prefix" -> {File(f).pk}
                         [] s = "suffix" -> Xor(old, {File(f).sk})                 \* old_hash ^ new_hash
                         [] s = "contents" -> {File(f).ck}
 
-Init0 == /\ stage = "size" /\ phase = "begin" /\ groups = {} /\ todo = {} /\ got = {} /\ pass = {}
+Init0 == /\ stage = "size" /\ phase = "begin" /\ groups = {} /\ todo = {} /\ got = {} /\ pass = {} /\ failed = {}
 
 \* group_by_size + remove_same_files (paths are distinct in the model)
 BySize == /\ stage = "size"
           /\ groups' = {g \in {[len |-> l, hash |-> {}, files |-> {f \in Paths : File(f).len = l}] : l \in {File(f).len : f \in Paths}} :
                            Matches(g.files)}
-          /\ stage' = "prefix" /\ UNCHANGED <<inp, phase, todo, got, pass>>
+          /\ stage' = "prefix" /\ UNCHANGED <<inp, phase, todo, got, pass, failed>>
 
 Begin == /\ stage \in {"prefix", "suffix", "contents"} /\ phase = "begin"
          /\ pass' = {g \in groups : ~Pre(stage, g)}
          /\ todo' = UNION {{[len |-> g.len, old |-> g.hash, ino |-> i, files |-> {f \in g.files : File(f).ino = i}] :
                                i \in {File(f).ino : f \in g.files}} : g \in {h \in groups : Pre(stage, h)}}
-         /\ got' = {} /\ phase' = "tasks" /\ UNCHANGED <<inp, stage, groups>>
+         /\ got' = {} /\ phase' = "tasks" /\ UNCHANGED <<inp, stage, groups, failed>>
 
+\* the paths of a run are tried in some order until one can be read: `dropped` are the unreadable ones tried before it
 Task(r) == /\ phase = "tasks" /\ r \in todo
            /\ todo' = todo \ {r}
-           /\ got' = IF r.ino \in inp.bad THEN got
-                     ELSE got \cup {[f |-> f, len |-> r.len, hash |-> NewHash(stage, CHOOSE x \in r.files : TRUE, r.old)] : f \in r.files}
+           /\ \E dropped \in SUBSET (r.files \cap inp.bad) :
+                 /\ (r.files \subseteq inp.bad) => dropped = r.files
+                 /\ got' = got \cup {[f |-> f, len |-> r.len, hash |-> NewHash(stage, CHOOSE x \in r.files : TRUE, r.old)] : f \in r.files \ dropped}
+                 /\ failed' = failed \cup dropped
            /\ UNCHANGED <<inp, stage, phase, groups, pass>>
 
 Regroup(G) == {[len |-> k[1], hash |-> k[2], files |-> {x.f : x \in {y \in G : <<y.len, y.hash>> = k}}] : k \in {<<x.len, x.hash>> : x \in G}}
 End == /\ phase = "tasks" /\ todo = {}
        /\ groups' = {g \in Regroup(got) \cup pass : Post(stage, g)}
        /\ stage' = After(stage) /\ phase' = "begin" /\ got' = {} /\ pass' = {}
-       /\ UNCHANGED <<inp, todo>>
+       /\ UNCHANGED <<inp, todo, failed>>
 
 FinalFilter == /\ stage = "filter"
                /\ groups' = {g \in groups : Strictly(g.files)}
-               /\ stage' = "done" /\ UNCHANGED <<inp, phase, todo, got, pass>>
+               /\ stage' = "done" /\ UNCHANGED <<inp, phase, todo, got, pass, failed>>
 
 Next0 == BySize \/ Begin \/ (\E r \in todo : Task(r)) \/ End \/ FinalFilter
 
 \* ---- the declarative meaning
-Good == {f \in Paths : File(f).ino \notin inp.bad}
+Good == Paths \ failed
 SameContent(a, b) == File(a).len = File(b).len /\ File(a).ck = File(b).ck
 EndsHash(f) == IF File(f).len >= Cfg.T THEN Xor({File(f).pk}, {File(f).sk}) ELSE {File(f).pk}
 SameEnds(a, b) == File(a).len = File(b).len /\ EndsHash(a) = EndsHash(b)
@@ -125,9 +132,8 @@ Complete == stage = "done" /\ ~Cfg.skipContent /\ inp.bad = {} => {g.files : g \
 NeverSplit == stage # "size" /\ phase = "begin" /\ Cfg.kind = "over" =>
                  \A C \in Classes(Good) : Strictly(C) => \E g \in groups : C \subseteq g.files
 \* C15: a file that could not be read is never grouped with a different file, and the others are grouped as if it were absent
-BadAlone == stage = "done" => \A g \in groups : \A a, b \in g.files : File(a).ino \in inp.bad => File(b).ino = File(a).ino
-OthersUnaffected == stage = "done" /\ ~Cfg.skipContent =>
-                       {g.files : g \in {h \in groups : h.files \subseteq Good}} = {C \in Classes(Good) : Strictly(C)}
+BadAlone == stage = "done" => \A g \in groups : g.files \cap failed = {}
+OthersUnaffected == stage = "done" /\ ~Cfg.skipContent => {g.files : g \in groups} = {C \in Classes(Good) : Strictly(C)}
 \* C06 for the dangerous mode too: what is reported satisfies the replication filter
 FilterHonoured == stage = "done" => \A g \in groups : Strictly(g.files)
 =============================================================================
